@@ -272,6 +272,7 @@ REGISTRY["C06"] = {
         K("c06::c06_diff_map_identity_is_empty", "one sorted sequence of 0..3 pairs against itself; unwind 8", "diff(A, A) is empty", ST),
         K("c06::c06_backend_order_consistent", "two backends: cluster/backend id in {a,b}, all IPv4 addresses and ports, sticky in {None,a,b}, backup in {None,false,true}, weight symbolic; unwind 6",
           "cmp == Equal <=> ==; cmp(a,b) == reverse(cmp(b,a)); reflexive", ["command/src/response.rs"], min_covers=2),
+        M("c06_diff_map_inputs_sorted", "all diff_map call sites of ConfigState::diff (regenerated MIR)", "both inputs of every diff_map call are BTreeMap iterations (the strictly-increasing-keys precondition of c06_diff_map_exact) and backends are joined on (cluster, backend_id, address); decided by inspecting the call-site types, no solver query", ST, prop="c06"),
         K("c06::c06_backend_order_transitive", "three backends differing in address/port/backup; unwind 6", "a<=b and b<=c => a<=c", ["command/src/response.rs"]),
     ],
 }
